@@ -190,6 +190,7 @@ class Continuous(AgentSchedulingComponent):
         # find at most `n_slots`
         loop_core_idx = 0
         loop_gpu_idx  = 0
+        gpu_shares    = dict()  # GPU shares handed out to slots of this request
         while len(slots) < n_slots:
 
             node_idx  = node['index']
@@ -248,13 +249,16 @@ class Continuous(AgentSchedulingComponent):
 
             elif gpus_per_slot > 0.0:
 
-                # find a GPU which has sufficient space left
+                # find a GPU which has sufficient space left - also consider
+                # the shares already handed to other slots of this request
                 for gpu_idx,gpu_occ in enumerate(node['gpus'][loop_gpu_idx:],
                                                               loop_gpu_idx):
 
-                    if gpus_per_slot <= rpc.BUSY - gpu_occ:
+                    gpu_share = gpu_shares.get(gpu_idx, 0.0)
+                    if gpus_per_slot <= rpc.BUSY - gpu_occ - gpu_share:
                         slot['gpus'].append(RO(index=gpu_idx,
                                                occupation=gpus_per_slot))
+                        gpu_shares[gpu_idx] = gpu_share + gpus_per_slot
                         break
                     else:
                         loop_gpu_idx = gpu_idx + 1
